@@ -1,9 +1,11 @@
 mod db;
 mod gen;
+mod hist;
 mod model;
 mod props;
 mod render;
 mod runner;
+mod snapshot;
 mod spec;
 
 use runner::{Ctx, Tier};
